@@ -138,6 +138,10 @@ func (c *checker) becameLeader(s *server, key instKey, term uint64, e *sim.Ev) {
 	} else if l != nil {
 		c.cov("leader-reentered-same-term")
 	}
+	// whoever wins term T has counted its own vote for T: that is its one vote of that term
+	// (electSelf gives up when it cannot record that vote, and peers that were asked before
+	// the failed write prove nothing)
+	c.recordVote(key.s, term, key.s, e.Seq, "won the election counting its own vote")
 	rec := &leaderRec{key: key, term: term, seq: e.Seq, t: e.T}
 	if c.leaders[term] == nil {
 		c.leaders[term] = rec
